@@ -86,6 +86,52 @@ CONV_FAMILIES = [
 ]
 
 
+def algebra_section(chk, r, thorough):
+    """covfie::algebra called directly (products of transforms, transform * vector, matrix * matrix) in the three builds: no
+    sanitizer report, identical results, equal to the model"""
+    from props import c09
+    with core.Lock('ocaml'):
+        driver, dlog = core.build_driver('algebra')
+    exes = {}
+    with core.Lock('harness'):
+        for cfg in ('dbg', 'rel', 'relplain'):
+            exe, log = core.build_harness('h_algebra', os.path.join(core.VERIF, 'harness', 'h_algebra.cpp'), cfg, deps=[os.path.join(core.VERIF, 'harness', 'vh_io.hpp')])
+            if exe:
+                exes[cfg] = exe
+            else:
+                chk.violation('algebra harness does not compile (' + cfg + ')', sc.first_error(log), {'compiler_output': log[-3000:]}, found_input=False)
+    lines = []
+    for t in ('f32', 'f64'):
+        for n in (1, 2, 3, 4):
+            for _ in range(12 if thorough else 5):
+                A, B = c09.small_int_matrix(r, t, n), c09.small_int_matrix(r, t, n)
+                v = [sc.fbits(t, float(r.range(-3, 3))) for _ in range(n)]
+                lines.append(f'compose {t} {n} ' + ' '.join(map(str, A + B)))
+                lines.append(f'apply {t} {n} ' + ' '.join(map(str, A + v)))
+                kk = r.range(2, 4)
+                Ms = [c09.small_int_matrix(r, t, n, 1 if n > 2 else 2) for _ in range(kk)]
+                lines.append(f'chain {t} {n} {kk} ' + ' '.join(str(x) for m_ in Ms for x in m_) + ' ' + ' '.join(map(str, v)))
+    lines = [f'{i} {l}' for i, l in enumerate(lines)]
+    model = {}
+    if driver:
+        rc, model, err = pair.run_model(driver, lines)
+    impl = {cfg: pair.run_impl_isolated(exe, lines) for cfg, exe in exes.items()}
+    for l in lines:
+        id_, rest = l.split(' ', 1)
+        chk.count_case(('algebra', rest), True)
+        outs = {cfg: impl[cfg].get(id_, 'MISSING') for cfg in impl}
+        for cfg, a in outs.items():
+            if a.startswith(('CRASH', 'TIMEOUT', 'MISSING', 'EXCEPTION')):
+                kind = 'sanitizer report' if 'runtime error' in a or 'Sanitizer' in a else 'crash or exception'
+                chk.violation(f'{kind} in covfie::algebra: ' + rest.split()[0], f'{" ".join(rest.split()[:3])} in build {cfg}: {a[:300]}', {'algebra_lines': [rest], 'build': cfg})
+        vals = {a for a in outs.values() if not a.startswith(('CRASH', 'TIMEOUT', 'MISSING', 'EXCEPTION', 'SKIPPED'))}
+        if len(vals) > 1:
+            chk.violation('the builds disagree in covfie::algebra: ' + rest.split()[0], f'{" ".join(rest.split()[:3])}: ' + ' / '.join(f'{c}: {outs[c][:80]}' for c in sorted(outs)), {'algebra_lines': [rest], 'build': 'all'})
+        elif model.get(id_) and vals and model[id_] not in vals:
+            chk.violation('covfie::algebra differs from the model: ' + rest.split()[0], f'{" ".join(rest.split()[:3])}: implementation {sorted(vals)[0][:120]}, model {model[id_][:120]}', {'algebra_lines': [rest], 'build': 'all'})
+    chk.cov['algebra_cases'] = len(lines)
+
+
 def run(replay=None):
     chk = core.Check('C15', 'proof')
     thorough = chk.tier == 'thorough'
@@ -93,7 +139,8 @@ def run(replay=None):
         'PROVED part: every kernel regenerated from the source (round_pow2, ipow, the row-major accumulation and its copy lambda, the Morton loop in both pre-processor variants, the Hilbert index, the out-of-range test) returns Ok '
         '-- no signed overflow, out-of-range shift, division by zero, out-of-bounds subscript or failed assertion in the semantics of CKernel.v -- on the documented domain, in the NDEBUG and in the assertion-enabled translation, '
         'with equal results (Properties_C15.v collects the refinement theorems); the ownership machine never double-frees or reads freed storage (C12); the reader has no outcome but accept / reject (C08). '
-        'OBSERVED part: seeded random programs (construction, lookups in both forms, writes and read-back, copy construction, copy and move assignment, dump, configuration and storage read-out, destruction) over the catalogue '
+        'OBSERVED part: seeded random programs (construction, lookups in both forms, writes and read-back, copy construction, copy and move assignment, conversions, dump, configuration and storage read-out, destruction) over the catalogue, '
+        'loads of float dumps into double fields and back with 1..4 components, covfie::algebra products on exactly representable operands, '
         'and seeded random stacks, with every coordinate chosen in-domain by the model, run in four configurations: -O1 with assertions + ASan/UBSan, -O2 -DNDEBUG + ASan/UBSan, -O2 -DNDEBUG plain, and (thorough) valgrind memcheck '
         'on the plain build. Any sanitizer report, assertion, crash, difference between the builds\' outputs or from the model is a failure. A case = (stack, program); non-trivial = at least one copy/assign/IO step; distinct by those.')
     with core.Lock('coq'):
@@ -113,6 +160,11 @@ def run(replay=None):
                     convs.append((a, b))
             if a not in names:
                 names.append(a)
+    WIDTH_PAIRS = [(f'{pre_}array.{m_}.{a_}', f'{pre_}array.{m_}.{b_}') for pre_ in ('', 'strided.2.u64/') for m_ in (1, 2, 3, 4) for a_, b_ in (('f32', 'f64'), ('f64', 'f32'))]
+    for a_, b_ in WIDTH_PAIRS:
+        for x_ in (a_, b_):
+            if x_ not in names:
+                names.append(x_)
     runner = sc.StackRunner(chk, 'ub', names, configs=('dbg', 'rel', 'relplain'), conversions=convs, shard_size=10)
     for s, log in runner.failed.items():
         chk.violation('stack does not compile: ' + '/'.join(l.split('.')[0] for l in s.split('/')), f'{s} is rejected by the compiler: {sc.first_error(log)}', {'stack': s, 'compiler_output': log[-3000:]})
@@ -142,6 +194,20 @@ def run(replay=None):
         good = [c for c, a in zip(cs, parts[1:]) if a.startswith('V')]
         k = stacks.kind_of(n)
         progs.append((n, program(r, n, k, t, e, good, conv_targets=[b for b in fam_of.get(n, []) if b not in runner.failed])))
+    # IO across storage precision: a dump of array<vector<float,M>> read by the array<vector<double,M>> reader and back (the
+    # converting read path is a public operation; M > 1 components included)
+    xw = []
+    for a_, b_ in WIDTH_PAIRS:
+        if a_ in runner.failed or b_ in runner.failed:
+            continue
+        for _ in range(2):
+            xw.append((a_, b_, sc.rand_field(r, a_, max_extent=3, data_mode='nice')))
+    if runner.driver and xw:
+        rc, md, err = pair.run_model(runner.driver, [f'{i} {a_} new 0 ' + ' '.join(map(str, t)) + ' | dump 0' for i, (a_, b_, t) in enumerate(xw)])
+        for i, (a_, b_, t) in enumerate(xw):
+            parts = md.get(str(i), '').split(' | ')
+            if len(parts) == 2 and parts[1].startswith('B ') and parts[1] != 'B -':
+                progs.append((b_, [f'load 1 {parts[1][2:]}', 'sto 1', 'cfg 1', 'copy 2 1', 'dump 2', 'del 1', 'sto 2']))
     if replay:
         rp = json.load(open(replay)).get('replay', {})
         if rp.get('cases'):
@@ -169,7 +235,7 @@ def run(replay=None):
         id_ = l.split(' ', 1)[0]
         n, ops = progs[int(id_)]
         kk = stacks.kind_of(n)
-        chk.count_case((n, tuple(ops)), any(o.split()[0] in ('copy', 'cassign', 'massign', 'move', 'conv', 'dump') for o in ops))
+        chk.count_case((n, tuple(ops)), any(o.split()[0] in ('copy', 'cassign', 'massign', 'move', 'conv', 'dump', 'load') for o in ops))
         m = canon(model.get(id_, ''), kk.tv, kk.tc)
         outs = {cfg: canon(impl[cfg].get(id_, 'MISSING'), kk.tv, kk.tc) for cfg in impl}
         for cfg, a in outs.items():
@@ -196,6 +262,7 @@ def run(replay=None):
                           {'cases': [[n, ops]], 'build': 'all'})
         if int(id_) % 29 == 0:
             chk.sample({'stack': n, 'program': [o[:40] for o in ops][:8], 'model': m[:120], 'impl': {c: outs[c][:120] for c in outs}})
+    algebra_section(chk, r, thorough)
     chk.cov['disagreements_checked'] = len(lines)
     chk.cov['programs'] = len(lines)
     chk.cov['builds'] = list(impl.keys())
